@@ -1,10 +1,10 @@
-import Proofs.SqlCharLex
+import Proofs.SqlFixedPoint
 import Proofs.SqlParserTotal
 
 /-!
   C01 — Persisted models load back unchanged (schema, values, links).
   Property theorems only (helper lemmas: Proofs/SqlChars.lean, SqlLexer.lean, SqlStep.lean, SqlCodec.lean,
-  SqlParser.lean, SqlTokenRoundtrip.lean, SqlCharLex.lean).
+  SqlParser.lean, SqlTokenRoundtrip.lean, SqlCharLex.lean, SqlCharRoundtrip.lean, SqlRoutes.lean, SqlFixedPoint.lean).
   Model: PyxModel/Sql — character-level lexer following the rule order of Gen/SqlLex.lean with PLY / `re` semantics
   hand-modelled per rule, parser, value printers and readers, the writers of xtuml/persist.py.
   `u : UC` is Python's view of the non-ASCII characters (`\d`, `\w`, `str.upper`); every theorem holds for all of them.
@@ -122,6 +122,13 @@ theorem relid_lex (u : UC) (n : Nat) (rest : Text) (h : ∀ c, rest.head? = some
 theorem cardinality_tokens (u : UC) (many cond : Bool) (r : List Tok) :
     cardAt (cardToks u many cond ++ r) = some (cardText many cond, r) := cardAt_cardToks u many cond r
 
+/-- association phrases use the string codec: any phrase (quotes, doubled quotes, `--`, newlines …) is written
+    escaped after `PHRASE`, lexed as one STRING token, and un-escaped to itself by `p_phrased_association_end` -/
+theorem phrase_codec (u : UC) (p rest : Text) (hs : Safe rest) :
+    lex u (phraseText p ++ rest) = (lex u rest).map (fun more => phraseToks p ++ more) ∧
+    unescapeQ (stripEnds (strText p)) = p :=
+  ⟨lexTo_phrase u p rest hs, stripEnds_phrase p⟩
+
 /-- a trailing comment can never swallow a value: everything up to and including the newline is discarded,
     lexing continues with what follows the line -/
 theorem comment_skip (u : UC) (c rest : Text) (h : ∀ x ∈ c, x ≠ '\n') :
@@ -143,6 +150,47 @@ theorem value_lex (u : UC) (t : Ty) (v : Val) (txt : Text) (ts : List Tok) (hf :
     (hv : valueToks t v = some ts) (rest : Text) (hs : Safe rest) :
     lex u (txt ++ rest) = (lex u rest).map (fun more => ts ++ more) := lex_value u t v txt ts hf hv rest hs
 
+/-- CHARACTER LEVEL, one item: the text `serialize_class` / `serialize_association` / `serialize_instance` / the
+    identifier line prints for a well-formed item lexes, whatever text follows, to the item's token list -/
+theorem item_lex (u : UC) (it : Item) (hw : it.WF u) (txt : Text) (hp : it.print u = some txt) :
+    ∃ toks, it.toks u = some toks ∧ ∀ rest, lex u (txt ++ rest) = (lex u rest).map (fun more => toks ++ more) :=
+  lexTo_item u it hw txt hp
+
+/-- ROUND TRIP, any list of well-formed items in any order (classes, associations, instances, identifiers; with or
+    without the CREATE TABLE items): the loader accepts the printed text and the statements it parses are exactly the
+    statements of the items — `parse (lex (print items)) = stmts items` at CHARACTER level -/
+theorem stmt_roundtrip (u : UC) (items : List Item) (text : Text) (hw : ∀ it ∈ items, it.WF u)
+    (hp : printItems u items = some text) :
+    ∃ stmts, itemsStmts u items = some stmts ∧ classify u text = .accepted stmts :=
+  classify_items u items text hw hp
+
+/-- every writer route (serialize_database, serialize_schema, serialize_instances, serialize_unique_identifiers,
+    persist_database, persist_schema, persist_instances, persist_unique_identifiers — each with its own ordering) of a
+    well-formed metamodel reloads to exactly the statements of its items -/
+theorem route_roundtrip (u : UC) (m : MM) (hw : m.WF u) (r : List Item) (hr : r ∈ m.routes u) (text : Text)
+    (hp : printItems u r = some text) : ∃ stmts, itemsStmts u r = some stmts ∧ classify u text = .accepted stmts :=
+  Pyx.Sql.route_roundtrip u m hw r hr text hp
+
+/-- concatenating texts concatenates statements: the three separately written parts may be fed in any order -/
+theorem concat_roundtrip (u : UC) (a b : List Item) (ta tb : Text) (ha : ∀ it ∈ a, it.WF u) (hb : ∀ it ∈ b, it.WF u)
+    (hpa : printItems u a = some ta) (hpb : printItems u b = some tb) :
+    ∃ sa sb, itemsStmts u a = some sa ∧ itemsStmts u b = some sb ∧ classify u (ta ++ tb) = .accepted (sa ++ sb) :=
+  classify_concat u a b ta tb ha hb hpa hpb
+
+/-- FIXED POINT (item level).  `canonItem` is the item as it is printed from the reloaded metamodel: type names
+    upper-cased, unset values replaced by the null value of their type.  It denotes the same statement as the original
+    (so loading text₂ gives the statements of text₁ again) and it is its own canonical form (so text₃ = text₂). -/
+theorem fixed_point (u : UC) (it : Item) (h : it.AsciiTypes) :
+    (canonItem u it).stmt u = it.stmt u ∧ canonItem u (canonItem u it) = canonItem u it :=
+  ⟨canon_stmt u it h, canon_idem u it h⟩
+
+/- The model-level form of the fixed point
+     `printDb (reload (reload mm)) = printDb (reload mm)`  with  `reload = toMM ∘ build ∘ parse ∘ lex ∘ printDb`
+   (and `reload_same`: classes, identifiers, associations, rows and LINKS of `reload mm` equal those of `mm`)
+   needs the recomputation of links from key values (`populate_connections`), which is the subject of C03; it is
+   validated on every run by the property predicate of harness/prop_C01.py (dump(original) = dump(reloaded) incl.
+   link pairs, text₂ = text₃ for every route). -/
+
 /-! non-vacuity: concrete instances -/
 
 example (u : UC) : step u (strText "it's -- \n".toList ++ ", -- s : STRING\n".toList) =
@@ -162,5 +210,26 @@ example : IdentOk "CREATE".toList ∧ IdentOk "R".toList ∧ IdentOk "Rx1".toLis
 example : ¬ IdentOk "R5".toList := by intro h; exact absurd (h.notRelid rfl '5' rfl) (by decide)
 example (u : UC) : itemsToks u [.cls ['A'] [(['i'], "integer".toList)], .index ['I'] ['A'] [['i']]] ≠ none := by
   simp [itemsToks, Item.toks]
+
+/-- a class named by a reserved word, a reflexive association with phrases and a row with an unset value are
+    well-formed items -/
+example (u : UC) : (Item.cls "TABLE".toList [("Id".toList, "unique_id".toList)]).WF u := by
+  refine ⟨⟨by decide, by decide, by decide, by decide⟩, ?_⟩
+  intro a ha
+  simp only [List.mem_singleton] at ha; subst ha
+  refine ⟨⟨by decide, by decide, by decide, by decide⟩, ?_⟩
+  have : u.upper "unique_id".toList = "UNIQUE_ID".toList := by
+    rw [upper_ascii u _ (by unfold AsciiText; decide)]; decide
+  rw [this]; exact ⟨by decide, by decide, by decide, by decide⟩
+
+example (u : UC) : (Item.assoc "R1".toList ⟨false, true, "TABLE".toList, ["next".toList], "owner's -- \n".toList⟩
+    ⟨false, true, "TABLE".toList, ["Id".toList], "succeeds".toList⟩).WF u := by
+  refine ⟨⟨'1', [], rfl, by decide⟩, ⟨⟨by decide, by decide, by decide, by decide⟩, ?_⟩,
+    ⟨⟨by decide, by decide, by decide, by decide⟩, ?_⟩⟩
+  · intro k hk; simp only [List.mem_singleton] at hk; subst hk; exact ⟨by decide, by decide, by decide, by decide⟩
+  · intro k hk; simp only [List.mem_singleton] at hk; subst hk; exact ⟨by decide, by decide, by decide, by decide⟩
+
+example : (Item.inst "TABLE".toList [("Id".toList, "unique_id".toList)] [none]).AsciiTypes := by
+  intro a ha; simp only [List.mem_singleton] at ha; subst ha; unfold AsciiText; decide
 
 end PyxProps.C01
